@@ -351,6 +351,8 @@ Inductive mcond : Type :=
 | CondEach                   (* {% for constant in t.constants %} without a filter *)
 | CondEachArray              (* {% for f in t.fields_except_padding if f.data_type is ArrayType %} *)
 | CondNotService             (* {% if t is not ServiceType %} *)
+| CondIsService              (* {% if T is ServiceType %} *)
+| CondElse (c : mcond)       (* the {% else %} branch of that condition *)
 | CondOther.
 Record emit : Type := { em_tgt : mtarget; em_key : mkey; em_conds : list mcond }.
 
@@ -450,3 +452,6 @@ Fixpoint render_pieces (A : list (list N) -> option (list N)) (ps : list piece) 
    _float_division_expr): both operands below 2^1023 (code before the repair of F-FLOAT-OPERAND-ROUNDING), or both operands exactly
    representable doubles (repaired code) *)
 Inductive frule : Type := DivIfBelowLimit | DivIfExactOperands.
+
+(* a boolean flag rendered as a literal under a Jinja branch (e.g. `_HAS_FIXED_PORT_ID_ true` under {% if T.has_fixed_port_id %}) *)
+Record flag_site : Type := { fs_tgt : mtarget; fs_name : list N; fs_conds : list mcond; fs_value : bool }.
